@@ -30,6 +30,8 @@ type Reader struct {
 	err       error  // Last read error, if any
 	current   uint32 // up to 4 bytes of input, valid bits MSB-aligned
 	validBits int    // number of valid bits in current
+	srcErr    error  // error returned by r, reported once the input is used up
+	padBits   int    // number of trailing bits in current which are not input
 
 	line    []byte // Current line being decoded
 	refLine []byte // Reference line (previous line) for 2D decoding
@@ -382,8 +384,11 @@ func (r *Reader) peekBits(n int) uint32 {
 
 	for r.validBits < n {
 		var x byte
-		if r.err == nil { // after the first error, use an inifinite stream of zeros
-			x, r.err = r.r.ReadByte()
+		if r.srcErr == nil {
+			x, r.srcErr = r.r.ReadByte()
+		}
+		if r.srcErr != nil { // after the end of the input, look ahead into zeros
+			r.padBits += 8
 		}
 		r.current |= uint32(x) << (24 - r.validBits)
 		r.validBits += 8
@@ -397,6 +402,13 @@ func (r *Reader) consumeBits(n int) {
 	}
 	r.current <<= n
 	r.validBits -= n
+	if r.validBits < r.padBits {
+		// only now have bits been used which are not part of the input
+		r.padBits = r.validBits
+		if r.err == nil {
+			r.err = r.srcErr
+		}
+	}
 }
 
 func (r *Reader) readBits(n int) uint32 {
